@@ -9,7 +9,8 @@ import common as C
 from props import generic as G
 from props import codecgen as CG
 
-MAKE_TARGETS = ["Props/C02.vo"]
+MAKE_TARGETS = ["Props/C02.vo", "Props/C02s.vo"]
+PROPS = ["C02", "C02s"]
 PROFILES = ("release", "dev")
 RULE = ("block sizes K in 1..40 (quick) / 1..120 (thorough) incl. sizes straddling Table-2 rows; sets of K+h distinct "
         "ESIs, h in {0,1}, source fraction in {0,.1,.5,.9}, repair ESIs over the whole 24-bit range; thresholds "
@@ -23,6 +24,43 @@ TRUSTED = [
     "harness rqh: SourceBlockEncoder / SourceBlockDecoder public API (+ set_sparse_threshold)",
 ]
 ASSUMPTIONS = []
+
+
+_KP = None
+
+
+def kprime(k):
+    global _KP
+    if _KP is None:
+        import re
+        src = open(C.REPO + "/src/systematic_constants.rs").read()
+        body = src[src.index("SYSTEMATIC_INDICES_AND_PARAMETERS") :]
+        body = body[body.index("= [") : body.index("];")]
+        _KP = [int(m.group(1)) for m in re.finditer(r"\((\d+),\s*\d+,\s*\d+,\s*\d+,\s*\d+\)", body)]
+    return next(x for x in _KP if x >= k)
+
+
+def isis_of(k, esis):
+    """the ISI list the decoder builds: present source ESIs ascending, padding, repair ESIs in arrival order"""
+    kp = kprime(k)
+    src = sorted(e for e in esis if e < k)
+    rep = [e for e in esis if e >= k]
+    return src + list(range(k, kp)) + [e + (kp - k) for e in rep]
+
+
+def solver_cases(rng, tier, chosen):
+    """the real five-phase solver's operation list (dense back-end) vs the executable model of pi_solver.rs"""
+    cs = []
+    ks = [k for k in ([10, 12, 18, 20, 26, 30, 32, 36, 42, 46, 48, 49, 55, 60] if tier == "quick" else (_KP or [kprime(1)] and _KP)) if k <= (60 if tier == "quick" else 257)]
+    for k in ks:
+        cs.append(C.Case("dense_solve_ops", [k], tag="solver"))
+    for (k, thr, esis) in chosen[: 120 if tier == "quick" else 1200]:
+        if len(set(esis)) != len(esis) or len(esis) < k:
+            continue
+        isis = isis_of(k, esis)
+        cs.append(C.Case("dec_ops", [k, 0] + isis, tag="solver"))
+        cs.append(C.Case("dec_ops", [k, 1] + isis, tag="solver"))
+    return cs
 
 
 def mk(rng, k, t, thr, esis, data, one_by_one=True):
@@ -64,15 +102,22 @@ def cases(rng, tier):
         esis = rng.shuffle(CG.block_esis(rng, k, rng.range(10, 13), rng.choice([0.0, 0.1, 0.5, 0.9])))
         t = rng.choice([1, 2])
         cs.append(mk(rng, k, t, rng.choice([0, 1, 251]), esis, CG.rand_data(rng, k * t)))
+    kprime(1)
+    cases.solver = solver_cases(rng, tier, chosen)
     # fewer than K symbols / exactly the K source symbols
     for _ in range(20):
         k = CG.small_k(rng, kmax)
         cs.append(mk(rng, k, 1, 0, rng.shuffle(list(range(k))), CG.rand_data(rng, k)))
-    return cs
+    return cs + cases.solver
 
 
 def evaluate(cs, rep, tier):
+    solver = [c for c in cs if c.tag == "solver"]
+    cs = [c for c in cs if c.tag != "solver"]
     impl, model, dis = G.diff_impl_model(cs, PROFILES, "rank")
+    # the solver itself: exact operation lists (and Some/None) of pi_solver.rs on the dense back-end vs its model
+    s_impl, s_model, s_dis = G.diff_impl_model(solver, PROFILES, "solver-oplist")
+    dis = dis + s_dis
     counter = []
     deficient = full = 0
     for c, i, m in zip(cs, impl, model):
@@ -94,7 +139,8 @@ def evaluate(cs, rep, tier):
     keys = set(ce["input"] for ce in counter)
     dis = [d for d in dis if d["input"][:800] not in keys]
     return {"disagreements": dis, "counterexamples": counter,
-            "stats": {"evaluations": len(cs) * 4 + getattr(cases, "screen", {}).get("candidates", 0), "distinct_nontrivial": deficient + full,
+            "stats": {"evaluations": len(cs) * 4 + len(solver) * 4 + getattr(cases, "screen", {}).get("candidates", 0), "distinct_nontrivial": deficient + full,
+                      "solver_oplists_compared": len(solver), "solver_singular_systems": sum(1 for r in s_impl if r.split()[:2] == ["1", "0"]),
                       "rank_deficient_sets": deficient, "full_rank_sets": full, "screening": getattr(cases, "screen", {}),
                       "samples": [cs[0].impl_line()[:200] + " ... -> " + impl[0][:50]],
                       "prefixes_compared": sum(c.args[5] for c in cs),
@@ -102,7 +148,7 @@ def evaluate(cs, rep, tier):
 
 
 def kernel_ok(c):
-    return c.args[0] <= 12 and len(c.args) < 150
+    return c.tag != "solver" and c.args[0] <= 12 and len(c.args) < 150
 
 
 def search(rng, rep, tier, disagreements):
